@@ -943,6 +943,7 @@ func (s *Service) runPipeline(ctx context.Context, rp *runnablePipeline) error {
 	s.runningPipelines.Set(rp.pipeline.ID, rp)
 	s.publishMu.Unlock()
 
+	prevStatus, prevError := rp.pipeline.GetStatus(), rp.pipeline.Error
 	err := s.pipelines.UpdateStatus(ctx, rp.pipeline.ID, pipeline.StatusRunning, "")
 	if err != nil {
 		// Roll back the publication above: this run never went live, so it
@@ -956,6 +957,21 @@ func (s *Service) runPipeline(ctx context.Context, rp *runnablePipeline) error {
 		// meantime), a blind Delete(id) would remove that OTHER run instead
 		// of just undoing this one's own publication.
 		s.deleteRunningPipelineIfCurrent(rp.pipeline.ID, rp)
+		// The nodes are already running (started above) and nothing owns them
+		// anymore: the run is not published and the cleanup goroutine is not
+		// registered yet. Stop them here and wait until they released their
+		// connectors and processors, otherwise the caller gets an error for a
+		// run that keeps processing records, can not be stopped ("pipeline
+		// not running") and blocks every later Start ("connector is running").
+		rp.t.Kill(err)
+		nodesWg.Wait()
+		// UpdateStatus changes the in-memory instance before it writes to the
+		// store, so the failed write left StatusRunning behind in memory for a
+		// pipeline that is not running: Start would refuse it as running, Stop
+		// as not running. Put the previous status back. The store still holds
+		// it, and the in-memory instance is updated whether or not this write
+		// succeeds, so the result does not matter.
+		_ = s.pipelines.UpdateStatus(ctx, rp.pipeline.ID, prevStatus, prevError)
 		return err
 	}
 
